@@ -136,7 +136,11 @@ def _div(ins, attrs, ctx):
     arr = ew(f, a.arr, b.arr)
     mag = None
     if ctx.track_mag and k == "f":
-        mag = ew(lambda v: e_abs(v, "f"), arr)
+        def fm(ma, y, v):
+            if not is_sym(y) and y != 0:
+                return e_mul(ma, abs(1 / Fraction(y)), "f")
+            return e_abs(v, "f")
+        mag = ew(fm, _mag(a), b.arr, arr)
     return [SV(arr, dt, mag)]
 
 
@@ -294,17 +298,32 @@ def _f(v):
 
 OPS["LeakyRelu"] = _unary(lambda v, k, a: e_ite(e_lt(v, zero(k), k), e_mul(v, _f(a.get("alpha", 0.01)), k), v, k), float_only=True)
 OPS["ThresholdedRelu"] = _unary(lambda v, k, a: e_ite(e_lt(_f(a.get("alpha", 1.0)), v, k), v, zero(k), k), float_only=True)
-OPS["HardSigmoid"] = _unary(
-    lambda v, k, a: e_max(zero(k), e_min(one(k), e_add(e_mul(v, _f(a.get("alpha", 0.2)), k), _f(a.get("beta", 0.5)), k), k), k),
-    float_only=True)
+def _hardsigmoid_impl(swish):
+    def impl(ins, attrs, ctx):
+        x = ins[0]
+        k = x.kind
+        if k != "f":
+            raise Bottom("float operand required")
+        alpha = Fraction(float(np.float32(1.0 / 6.0))) if swish else _f(attrs.get("alpha", 0.2))
+        beta = Fraction(1, 2) if swish else _f(attrs.get("beta", 0.5))
+
+        def f(v):
+            hs = e_max(zero(k), e_min(one(k), e_add(e_mul(v, alpha, k), beta, k), k), k)
+            return e_mul(v, hs, k) if swish else hs
+        arr = ew(f, x.arr)
+        mag = None
+        if ctx.track_mag:
+            # magnitude of the affine part before clamping (forward-error bound must not vanish at the kinks)
+            def fm(mv):
+                inner = e_add(e_mul(mv, abs(alpha), "f"), abs(beta), "f")
+                return e_mul(mv, inner, "f") if swish else inner
+            mag = ew(fm, _mag(x))
+        return [SV(arr, x.dtype, mag)]
+    return impl
 
 
-def _hardswish(v, k, a):
-    hs = e_max(zero(k), e_min(one(k), e_add(e_mul(v, Fraction(float(np.float32(1.0 / 6.0))), k), Fraction(1, 2), k), k), k)
-    return e_mul(v, hs, k)
-
-
-OPS["HardSwish"] = _unary(_hardswish, float_only=True)
+OPS["HardSigmoid"] = _hardsigmoid_impl(False)
+OPS["HardSwish"] = _hardsigmoid_impl(True)
 
 
 @op("Reciprocal")
